@@ -42,11 +42,11 @@ DID_RULE = ("did profile: 3 DIDs x 4 secp256k1 keys; documents in 10 shapes (key
 
 
 def _aol_runs(tier, seed):
-    return [dict(profile="aol", seed=seed, n=_sizes(tier, 40, 3000), extra=["-blocks", str(_sizes(tier, 12, 30))])]
+    return [dict(profile="aol", seed=seed, n=_sizes(tier, 90, 3000), extra=["-blocks", str(_sizes(tier, 12, 30))])]
 
 
 def _did_runs(tier, seed):
-    return [dict(profile="did", seed=seed, n=_sizes(tier, 40, 3000), extra=["-blocks", str(_sizes(tier, 12, 30))])]
+    return [dict(profile="did", seed=seed, n=_sizes(tier, 90, 3000), extra=["-blocks", str(_sizes(tier, 12, 30))])]
 
 
 CHAIN_ASSUME = ["the chain model covers the message alphabet AOL(4) + DID(3) + PNFT(7) + bank MsgSend, MsgMultiSend, delayed "
@@ -75,8 +75,8 @@ LIST_RULE = ("aollist profile: genesis-seeded states (consistent counters) with 
              "writer lists are paged through with limits {1,2,3,7,100,2^64-1}, both directions, key and offset style, with/without "
              "count_total (each page request is answered by the model too), plus default-page, offset+key and malformed requests")
 prop(id="C13", vfile="Properties/C13.v",
-     runs=lambda tier, seed: [dict(profile="aollist", seed=seed, n=_sizes(tier, 30, 2000), extra=["-blocks", "4"]),
-                              dict(profile="aol", seed=seed, n=_sizes(tier, 20, 1000), extra=["-blocks", str(_sizes(tier, 10, 30))])],
+     runs=lambda tier, seed: [dict(profile="aollist", seed=seed, n=_sizes(tier, 60, 2000), extra=["-blocks", "4"]),
+                              dict(profile="aol", seed=seed, n=_sizes(tier, 40, 1000), extra=["-blocks", str(_sizes(tier, 10, 30))])],
      rule=LIST_RULE + " || " + AOL_RULE, assumptions=CHAIN_ASSUME + ["query.Paginate is modelled from the SDK source (Pagination/Model.v) and checked differentially"])
 
 
@@ -90,7 +90,7 @@ VALID_RULE = ("valid profile (boundary-exhaustive, not random): every field of t
               "non-trivial = distinct case; thorough adds 4000 random field combinations")
 prop(id="C16", vfile="Properties/C16.v",
      runs=lambda tier, seed: [dict(profile="valid", seed=seed, n=_sizes(tier, 1, 2)),
-                              dict(profile="aol", seed=seed, n=_sizes(tier, 15, 500), extra=["-blocks", "10"])],
+                              dict(profile="aol", seed=seed, n=_sizes(tier, 30, 500), extra=["-blocks", "10"])],
      rule=VALID_RULE, assumptions=CHAIN_ASSUME + ["Go regexp semantics for the six literal patterns are modelled by byte-wise character classes (tied to the literals by C16_regex_ties, checked differentially at every class boundary)"])
 
 
@@ -102,7 +102,7 @@ PNFT_RULE = ("pnft profile: 4 accounts; denom ids {a, ab, b, a/b, A} and odd one
 
 
 def _pnft_runs(tier, seed):
-    return [dict(profile="pnft", seed=seed, n=_sizes(tier, 40, 3000), extra=["-blocks", str(_sizes(tier, 12, 30))])]
+    return [dict(profile="pnft", seed=seed, n=_sizes(tier, 90, 3000), extra=["-blocks", str(_sizes(tier, 12, 30))])]
 
 
 prop(id="C06", vfile="Properties/C06.v", runs=_pnft_runs, rule=PNFT_RULE,
@@ -117,9 +117,9 @@ FEE_RULE = ("fee monitor on the aol, did, pnft and burn profiles: for every tran
             "signers) the balances of all four accounts, the burn address and the fee collector in both denominations and the total "
             "supply are read before and after DeliverTx; the deltas are also compared line by line with the model (T lines)")
 prop(id="C15", vfile="Properties/C15.v",
-     runs=lambda tier, seed: [dict(profile="aol", seed=seed, n=_sizes(tier, 20, 1500), extra=["-blocks", "10"]),
-                              dict(profile="pnft", seed=seed, n=_sizes(tier, 15, 1000), extra=["-blocks", "10"]),
-                              dict(profile="did", seed=seed, n=_sizes(tier, 10, 1000), extra=["-blocks", "10"])],
+     runs=lambda tier, seed: [dict(profile="aol", seed=seed, n=_sizes(tier, 50, 1500), extra=["-blocks", "10"]),
+                              dict(profile="pnft", seed=seed, n=_sizes(tier, 40, 1000), extra=["-blocks", "10"]),
+                              dict(profile="did", seed=seed, n=_sizes(tier, 40, 1000), extra=["-blocks", "10"])],
      rule=FEE_RULE + " || " + AOL_RULE, assumptions=CHAIN_ASSUME,
      partial="the transaction pipeline (baseapp runTx, the ante decorators, x/bank) is SDK code: modelled from its source and checked differentially, not verified")
 
@@ -132,8 +132,8 @@ BURN_RULE = ("burn profile: blocks in which the burn address (and, as controls, 
              "every denomination, all other balances touched only by the burn, and runs the registered x/crisis invariants; the B lines "
              "(spendable at the burn address, supply deltas) and T lines (per-transaction balance deltas) are compared with the model")
 prop(id="C07", vfile="Properties/C07.v",
-     runs=lambda tier, seed: [dict(profile="burn", seed=seed, n=_sizes(tier, 30, 2500), extra=["-blocks", str(_sizes(tier, 10, 30))]),
-                              dict(profile="aol", seed=seed, n=_sizes(tier, 10, 500), extra=["-blocks", "10"])],
+     runs=lambda tier, seed: [dict(profile="burn", seed=seed, n=_sizes(tier, 80, 2500), extra=["-blocks", str(_sizes(tier, 10, 30))]),
+                              dict(profile="aol", seed=seed, n=_sizes(tier, 20, 500), extra=["-blocks", "10"])],
      rule=BURN_RULE, assumptions=CHAIN_ASSUME + [
          "x/bank (balances, supply, delayed vesting locks, SendCoins, SpendableCoins, BurnCoins) is modelled from the pinned SDK source "
          "(Bank/Model.v) and checked differentially; continuous/periodic vesting and minting by x/mint (inflation is zero in the harness "
@@ -152,13 +152,13 @@ TOTAL_RULE = ("total profile (by shape, not random): a populated chain built in 
               "ABCI code 111222. keystore profile: 67 key files (valid, wrong password, every parameter absent/zero/negative/huge, short and "
               "long iv/salt/mac/ciphertext, non-hex, non-JSON, empty) loaded by the real Load and by the model. valid profile: see C16")
 prop(id="C17", vfile="Properties/C17.v",
-     runs=lambda tier, seed: [dict(profile="total", seed=seed, n=_sizes(tier, 2, 40)),
+     runs=lambda tier, seed: [dict(profile="total", seed=seed, n=_sizes(tier, 3, 40)),
                               dict(profile="keystore", seed=seed, n=_sizes(tier, 1, 4)),
                               dict(profile="valid", seed=seed, n=_sizes(tier, 1, 2)),
-                              dict(profile="aol", seed=seed, n=_sizes(tier, 10, 800), extra=["-blocks", "8"]),
-                              dict(profile="did", seed=seed, n=_sizes(tier, 8, 600), extra=["-blocks", "8"]),
-                              dict(profile="pnft", seed=seed, n=_sizes(tier, 8, 600), extra=["-blocks", "8"]),
-                              dict(profile="burn", seed=seed, n=_sizes(tier, 6, 400), extra=["-blocks", "8"])],
+                              dict(profile="aol", seed=seed, n=_sizes(tier, 25, 800), extra=["-blocks", "8"]),
+                              dict(profile="did", seed=seed, n=_sizes(tier, 20, 600), extra=["-blocks", "8"]),
+                              dict(profile="pnft", seed=seed, n=_sizes(tier, 20, 600), extra=["-blocks", "8"]),
+                              dict(profile="burn", seed=seed, n=_sizes(tier, 15, 400), extra=["-blocks", "8"])],
      rule=TOTAL_RULE + " || " + VALID_RULE, assumptions=CHAIN_ASSUME + [
          "protobuf decoding (generated code) and the gRPC/ABCI plumbing are outside the model: the property starts from bytes that decode",
          "scrypt/pbkdf2/AES of the key store enter the model as the boolean 'MAC matches'; hex/JSON decoding as booleans 'field decodes'"],
@@ -203,9 +203,9 @@ GENESIS_RULE = ("aol / did / pnft profiles with EXPORTIMPORT events (about 1-2 p
                 "exported twice (identical bytes), the raw custom stores before and after are compared (modulo x/nft zero supply counters), "
                 "and the imported chain is exported again (custom-module genesis identical)")
 prop(id="C08", vfile="Properties/C08.v",
-     runs=lambda tier, seed: [dict(profile="pnft", seed=seed, n=_sizes(tier, 25, 2000), extra=["-blocks", "10", "-k3"]),
-                              dict(profile="aol", seed=seed, n=_sizes(tier, 25, 2000), extra=["-blocks", "10", "-k3"]),
-                              dict(profile="did", seed=seed, n=_sizes(tier, 20, 1500), extra=["-blocks", "10", "-k3"])],
+     runs=lambda tier, seed: [dict(profile="pnft", seed=seed, n=_sizes(tier, 50, 2000), extra=["-blocks", "10", "-k3"]),
+                              dict(profile="aol", seed=seed, n=_sizes(tier, 50, 2000), extra=["-blocks", "10", "-k3"]),
+                              dict(profile="did", seed=seed, n=_sizes(tier, 40, 1500), extra=["-blocks", "10", "-k3"])],
      rule=GENESIS_RULE + " || " + PNFT_RULE, assumptions=CHAIN_ASSUME + [
          "bech32 enters as three premises (unbech (bech a) = Some a for 1..255-byte addresses, no '/' in and non-emptiness of bech strings), "
          "instantiated in the correspondence by tables computed with the real bech32 code",
@@ -216,7 +216,7 @@ prop(id="C08", vfile="Properties/C08.v",
              "C08_invalid_utf8_refuted); the PNFT raw store loses x/nft's zero supply counters, which no query can observe")
 
 prop(id="C10", vfile="Properties/C10.v",
-     runs=lambda tier, seed: [dict(profile="node", seed=seed, n=_sizes(tier, 60, 2500), extra=["-blocks", "10"])],
+     runs=lambda tier, seed: [dict(profile="node", seed=seed, n=_sizes(tier, 100, 2500), extra=["-blocks", "10"])],
      rule=NODE_RULE, assumptions=CHAIN_ASSUME + [
          "Node/Model.v models baseapp + the versioned multistore: Commit appends an immutable version, the deliver state is a branch that only "
          "Commit writes through, LoadLatestVersion resumes at the last version; the store implementation (IAVL, cache stores) is SDK code, "
@@ -225,7 +225,7 @@ prop(id="C10", vfile="Properties/C10.v",
              "losing the process memory with an intact database — torn database writes inside Commit are outside the model")
 
 prop(id="C09", vfile="Properties/C09.v",
-     runs=lambda tier, seed: [dict(profile="node", seed=seed + 7, n=_sizes(tier, 60, 2500), extra=["-blocks", "10"]),
+     runs=lambda tier, seed: [dict(profile="node", seed=seed + 7, n=_sizes(tier, 100, 2500), extra=["-blocks", "10"]),
                               dict(profile="node", seed=seed + 11, n=_sizes(tier, 12, 600), extra=["-blocks", "8"], second_process=True),
                               dict(profile="aollist", seed=seed, n=_sizes(tier, 10, 500), extra=["-blocks", "4"])],
      rule=NODE_RULE + " || the twin replica is a second application object in the same process initialised from the same genesis bytes "
@@ -247,7 +247,7 @@ UPGRADE_RULE = ("upgrade profile: a chain populated by the aol / pnft / did gene
                 "BeginBlock, restarts must resume with the committed application hash, a never-restarted twin must agree on every hash, and "
                 "an independent re-implementation of the store accounting must find no unaccounted mounted store and no missing handler")
 prop(id="C19", vfile="Properties/C19.v",
-     runs=lambda tier, seed: [dict(profile="upgrade", seed=seed, n=_sizes(tier, 25, 1500), extra=["-blocks", "8"])],
+     runs=lambda tier, seed: [dict(profile="upgrade", seed=seed, n=_sizes(tier, 40, 1500), extra=["-blocks", "8"])],
      rule=UPGRADE_RULE, assumptions=[
          "baseline (the stores of the release preceding the first descriptor: SDK 0.42 module set + aol, did, burn, token, wasm) is the one "
          "input that is not in the repository; it is written in Upgrade/Repo.v and, independently, in harness/upgrade.go",
